@@ -9,7 +9,12 @@
      3. T1 is parsed by the generated parser with <parser flags> -> B1 (verified) or an error;
      4. B1 is printed with the same settings -> T2.
    reply:    RT <print rc> <T1 hex> <parse rc> <ctx.error> <error_loc> <end_loc> <verify rc of B1> <B1 hex | -> <T2 == T1: 0|1|-> <B0 hex>
-             SRC <parse rc> <ctx.error> <error_loc> <verify rc>        the source document did not give a verified buffer */
+             SRC <parse rc> <ctx.error> <error_loc> <verify rc>        the source document did not give a verified buffer
+   request:  deep <root> <printer flag bits> <indent | -1> <parser flags> <n> <what>
+     B0 is built with the generated BUILDER API instead (bottom up, no nesting limit): a chain of n tables of the recursive type
+     (suite 1: Rec through r; suite 2: Doc through sub) whose innermost table holds  what = 0: a scalar (n / i32 = 5),
+     1: an empty vector (k / vu8), 2: a string with an escape (suite 2: title), 3: an empty string vector (suite 2: names);
+     then steps 2-4 as above.  reply as for rt; SRC -1 0 0 <verify rc> when the built buffer does not verify. */
 #include "hx.h"
 #include "flatcc/flatcc_builder.h"
 #include "flatcc/flatcc_json_parser.h"
@@ -53,6 +58,46 @@ static int do_print(struct root *r, const void *buf, size_t size, unsigned bits,
     return rc;
 }
 
+/* chain of n tables built bottom up with the generated builder API; returns the finished buffer or 0 */
+static void *build_deep(flatcc_builder_t *B, int n, int what, size_t *size)
+{
+    int i;
+    flatcc_builder_reset(B);
+    if (flatcc_builder_start_buffer(B, FID, 0, 0)) return 0;
+#if C05B_SUITE == 1
+    {
+        C4_Rec_ref_t ref = 0; C4_Rec_vec_ref_t vec = 0;
+        for (i = n; i >= 1; --i) {
+            if (i == n && what == 1) vec = C4_Rec_vec_create(B, 0, 0);
+            if (C4_Rec_start(B)) return 0;
+            if (i == n) { if (what == 1) C4_Rec_k_add(B, vec); else C4_Rec_n_add(B, 5); }
+            else C4_Rec_r_add(B, ref);
+            ref = C4_Rec_end(B);
+            if (!ref) return 0;
+        }
+        if (!flatcc_builder_end_buffer(B, ref)) return 0;
+    }
+#else
+    {
+        B4_Doc_ref_t ref = 0; flatbuffers_uint8_vec_ref_t vu8 = 0; flatbuffers_string_ref_t str = 0; flatbuffers_string_vec_ref_t names = 0;
+        for (i = n; i >= 1; --i) {
+            if (i == n && what == 1) vu8 = flatbuffers_uint8_vec_create(B, 0, 0);
+            if (i == n && what == 2) str = flatbuffers_string_create(B, "q\"q", 3);
+            if (i == n && what == 3) names = flatbuffers_string_vec_create(B, 0, 0);
+            if (B4_Doc_start(B)) return 0;
+            if (i == n) {
+                if (what == 1) B4_Doc_vu8_add(B, vu8); else if (what == 2) B4_Doc_title_add(B, str); else if (what == 3) B4_Doc_names_add(B, names);
+                else B4_Doc_i32_add(B, 5);
+            } else B4_Doc_sub_add(B, ref);
+            ref = B4_Doc_end(B);
+            if (!ref) return 0;
+        }
+        if (!flatcc_builder_end_buffer(B, ref)) return 0;
+    }
+#endif
+    return flatcc_builder_finalize_aligned_buffer(B, size);
+}
+
 int main(void)
 {
     char *line, *t[8]; int n; flatcc_builder_t B;
@@ -61,15 +106,22 @@ int main(void)
         uint8_t *in; size_t len, size0 = 0, size1 = 0, l1 = 0, l2 = 0; flatcc_json_parser_t ctx; int rc, vrc, prc, indent; unsigned bits;
         flatcc_json_parser_flags_t flags; struct root *r = roots; void *b0 = 0, *b1 = 0; char *t1 = 0, *t2 = 0, *in1;
         n = hx_split(line, t, 8);
-        if (n != 6 || strcmp(t[0], "rt")) { printf("BAD\n"); fflush(stdout); continue; }
+        if (!((n == 6 && !strcmp(t[0], "rt")) || (n == 7 && !strcmp(t[0], "deep")))) { printf("BAD\n"); fflush(stdout); continue; }
         while (r->name && strcmp(r->name, t[1])) ++r;
         if (!r->name) { printf("BAD\n"); fflush(stdout); continue; }
         bits = (unsigned)atoi(t[2]); indent = atoi(t[3]); flags = (flatcc_json_parser_flags_t)atoi(t[4]);
+        memset(&ctx, 0, sizeof(ctx));
+        if (!strcmp(t[0], "deep")) {
+            in = (uint8_t *)malloc(1); len = 0;
+            b0 = build_deep(&B, atoi(t[5]), atoi(t[6]), &size0);
+            rc = b0 ? 0 : -1; vrc = b0 ? r->verify(b0, size0, FID) : -1;
+        } else {
         len = hx_decode(t[5], &in);
         flatcc_builder_reset(&B);
         rc = r->parse(&B, &ctx, (const char *)in, len, flatcc_json_parser_f_force_add, FID);
         vrc = -1;
         if (rc == 0) { b0 = flatcc_builder_finalize_aligned_buffer(&B, &size0); if (b0) vrc = r->verify(b0, size0, FID); }
+        }
         if (rc != 0 || vrc != 0) {
             printf("SRC %d %d %ld %d\n", rc, ctx.error, (long)((const uint8_t *)ctx.error_loc - in), vrc);
             if (b0) flatcc_builder_aligned_free(b0);
